@@ -365,6 +365,12 @@ type RedirectResult struct {
 // VerifyRedirect verifies the query-string signature of a redirect URL the way a conformant SP
 // does: from the raw query, keeping the sender's percent-encoding.
 func VerifyRedirect(rawQuery, msgParam string, pub *rsa.PublicKey) *RedirectResult {
+	return VerifyRedirectOpt(rawQuery, msgParam, pub, false)
+}
+
+// VerifyRedirectOpt with firstWins verifies over the first occurrence of each parameter instead
+// of refusing repeated parameters (a receiver that consistently reads the first value is sound).
+func VerifyRedirectOpt(rawQuery, msgParam string, pub *rsa.PublicKey, firstWins bool) *RedirectResult {
 	res := &RedirectResult{}
 	get := func(name string) (string, int) {
 		n, v := 0, ""
@@ -384,6 +390,20 @@ func VerifyRedirect(rawQuery, msgParam string, pub *rsa.PublicKey) *RedirectResu
 	alg, nalg := get("SigAlg")
 	sig, nsig := get("Signature")
 	res.HasSig = nsig > 0
+	if firstWins {
+		if nm > 1 {
+			nm = 1
+		}
+		if nrs > 1 {
+			nrs = 1
+		}
+		if nalg > 1 {
+			nalg = 1
+		}
+		if nsig > 1 {
+			nsig = 1
+		}
+	}
 	if nm != 1 || nrs > 1 || nalg != 1 || nsig != 1 {
 		res.Reason = fmt.Sprintf("parameter multiplicity: %s=%d RelayState=%d SigAlg=%d Signature=%d", msgParam, nm, nrs, nalg, nsig)
 		return res
